@@ -51,6 +51,11 @@ def tfGrid (m n : Nat) (shift : Bool) (dx : Float) (kind : String) (p1 p2 : Floa
   | "fx" => some (mk fun fx _ => 1.0 / (1.0 + p1 * fx * fx + p2 * fx))
   | "fy" => some (mk fun _ fy => 1.0 / (1.0 + p1 * fy * fy + p2 * fy))
   | "ft" => some (mk fun fx fy => 1.0 + p1 * Float.cos (Float.atan2 fy fx) + p2 * Float.sin (Float.atan2 fy fx))
+  | "phase" => some (Img.tab m n fun j i =>
+      let t := twoPi * (p1 * freq n shift dx i + p2 * freq m shift dx j)
+      (⟨Float.cos t, -(Float.sin t)⟩ : Cx Float))
+  | "const" => some (mk fun _ _ => p1)
+  | "noarg" => some (mk fun _ _ => p1)
   | _ => none
 
 def parseCalls : Nat → List String → Option (List (String × Float × Float) × List String)
